@@ -235,6 +235,12 @@ pub fn guard<R>(f: impl FnOnce() -> R) -> Result<R, SutFail> {
                 Err(SutFail::ClockAbort)
             } else {
                 let m = LAST_PANIC.with(|p| p.borrow().clone());
+                // a panic raised by the harness's own source files is a harness error, never a
+                // finding about the code under test: let it escape to the engine
+                let loc = m.rsplit(" @ ").next().unwrap_or("");
+                if loc.starts_with("src/") {
+                    std::panic::resume_unwind(p);
+                }
                 Err(SutFail::Panic(m))
             }
         }
